@@ -79,7 +79,8 @@ Fixpoint find_rhs (ts : list tk) (ctx : list str) (i : nat) : option nat :=
              end
       else match ctx with
            | _ :: _ => find_rhs rest ctx (S i)
-           | [] => if is_op t && leqb (tx t) [cTILDE] then Some i else find_rhs rest ctx (S i)
+           | [] => if is_op t && (match tx t with c :: _ => N.eqb c cTILDE | [] => false end)     (* token.startswith("~"): '~' may be lexed with a following sign *)
+                   then Some i else find_rhs rest ctx (S i)
            end
   end.
 
